@@ -115,7 +115,10 @@ func genExprCase(t *rapid.T) exprCase {
 	var c exprCase
 	c.Kind = rapid.SampledFrom([]string{"operand", "operand", "operand", "org", "for", "assert"}).Draw(t, "kind")
 	c.Cfg = gen.AsmConfig{CoreSize: rapid.SampledFrom([]int64{1 << 34, 1 << 34, 7, 8000, 8192}).Draw(t, "M")}
-	c.Cfg.Length = rapid.SampledFrom([]int64{100, 5, 3000}).Draw(t, "L")
+	if c.Kind != "operand" && c.Cfg.CoreSize == 7 {
+		c.Cfg.CoreSize = 8000 // the org/for/assert programs need room for up to 8 instructions
+	}
+	c.Cfg.Length = rapid.SampledFrom([]int64{100, 8, 3000}).Draw(t, "L")
 	if c.Cfg.Length*2 > c.Cfg.CoreSize {
 		c.Cfg.Length = c.Cfg.CoreSize / 2
 	}
